@@ -290,6 +290,9 @@ Inductive result :=
 | Hit (c : cert)        (* the cached object was returned *)
 | Issued (c : cert).    (* a new certificate was minted, stored and returned *)
 
+Definition res_cert (r : result) : option cert :=
+  match r with Refused => None | Hit c | Issued c => Some c end.
+
 Record state := mkState { st_cache : cache; st_next : nat }.
 
 Definition init_state : state := mkState [] 0.
@@ -351,11 +354,12 @@ Inductive label :=
 (* l_issued: ghost history of every certificate minted so far, in order;
    the object identity of a new certificate is its position in it. *)
 Record lts := mkLts
-  { l_cache : cache; l_issued : list cert; l_now : Z; l_threads : list thread }.
+  { l_cache : cache; l_issued : list cert; l_now : Z; l_threads : list thread;
+    l_returned : list (str * cert) }.   (* ghost: (name, certificate) of every answer handed out so far *)
 
 Definition idle_thread : thread := mkTh ApiTLS [] Idle.
 
-Definition lts_init (k : nat) : lts := mkLts [] [] 0 (repeat idle_thread k).
+Definition lts_init (k : nat) : lts := mkLts [] [] 0 (repeat idle_thread k) [].
 
 Fixpoint set_nth {A} (l : list A) (i : nat) (x : A) : list A :=
   match l, i with
@@ -365,7 +369,7 @@ Fixpoint set_nth {A} (l : list A) (i : nat) (x : A) : list A :=
   end.
 
 Definition upd (s : lts) (i : nat) (th : thread) : lts :=
-  mkLts (l_cache s) (l_issued s) (l_now s) (set_nth (l_threads s) i th).
+  mkLts (l_cache s) (l_issued s) (l_now s) (set_nth (l_threads s) i th) (l_returned s).
 
 Definition with_pc (th : thread) (p : pc) : thread := mkTh (th_api th) (th_sni th) p.
 
@@ -401,7 +405,7 @@ Definition step (cfg : config) (s : lts) (l : label) : option lts :=
           match th_pc th with
           | Looked h found =>
               if Z.leb (l_now s) t then
-                let s' := mkLts (l_cache s) (l_issued s) t (l_threads s) in
+                let s' := mkLts (l_cache s) (l_issued s) t (l_threads s) (l_returned s) in
                 match found with
                 | Some c =>
                     if x509_verify cfg c h t
@@ -423,10 +427,10 @@ Definition step (cfg : config) (s : lts) (l : label) : option lts :=
                 if issuable h then
                   let c := issue cfg (length (l_issued s)) h t1 t2 in
                   Some (mkLts (l_cache s) (l_issued s ++ [c]) t2
-                              (set_nth (l_threads s) i (with_pc th (Made h c t2))))
+                              (set_nth (l_threads s) i (with_pc th (Made h c t2))) (l_returned s))
                 else
                   Some (mkLts (l_cache s) (l_issued s) t2
-                              (set_nth (l_threads s) i (with_pc th (Done Refused t2))))
+                              (set_nth (l_threads s) i (with_pc th (Done Refused t2))) (l_returned s))
               else None
           | _ => None
           end
@@ -438,7 +442,7 @@ Definition step (cfg : config) (s : lts) (l : label) : option lts :=
           match th_pc th with
           | Made h c t =>
               Some (mkLts (cache_put h c (l_cache s)) (l_issued s) (l_now s)
-                          (set_nth (l_threads s) i (with_pc th (Done (Issued c) t))))
+                          (set_nth (l_threads s) i (with_pc th (Done (Issued c) t))) (l_returned s))
           | _ => None
           end
       | None => None
@@ -447,7 +451,14 @@ Definition step (cfg : config) (s : lts) (l : label) : option lts :=
       match nth_error (l_threads s) i with
       | Some th =>
           match th_pc th with
-          | Done _ _ => Some (upd s i (with_pc th Idle))
+          | Done r _ =>
+              Some (mkLts (l_cache s) (l_issued s) (l_now s)
+                          (set_nth (l_threads s) i (with_pc th Idle))
+                          (l_returned s ++
+                           match req_name (th_api th) (th_sni th), res_cert r with
+                           | Some h, Some c => [(h, c)]
+                           | _, _ => []
+                           end))
           | _ => None
           end
       | None => None
@@ -502,9 +513,6 @@ Definition c06_ok (cfg : config) (obs : list observed) : bool :=
    answer being good: two answers carrying the same object identity are the
    same certificate, and an answer after the join that is a cache hit is one
    of the certificates handed to a requester of the same name. *)
-Definition res_cert (r : result) : option cert :=
-  match r with Refused => None | Hit c | Issued c => Some c end.
-
 Definition same_identity_same_cert (rs : list result) : bool :=
   forallb (fun r1 =>
     forallb (fun r2 =>
